@@ -62,14 +62,29 @@ def run(rep, tier, rng):
         f = P.gen_file(rng, code, profile=prof)
         f["calls"] = P.finalize_placements(rng, len(f["specs"]))
         files.append(f)
+    # counts beyond the readers' pre-sizing cap of 1024 elements: parts, rings, patches, points
+    big = [(31, 1030, 1), (3, 1030, 2), (8, 1, 1100)] + ([(5, 1030, 1), (15, 3, 400), (28, 1, 2050), (13, 1026, 2)] if tier == "thorough" else [])
+    bigfiles = []
+    for code, nparts, npts in big:
+        f = {"code": code, "specs": [shapes.grid_ctor(rng, code, nparts, npts, "small")]}
+        f["calls"] = [("w", 0)]
+        bigfiles.append(f)
     rep.cov["rule"] = ("%d files (13 types round-robin, 1-5 shapes from the public constructors, floats from the special-value "
                        "pool incl. NaN in Z/M, half of the polygons on the exact integer domain); each file: constructor values "
                        "(kind 2), writer history with random finalize placement (kind 4), 6 in-memory reader routes "
                        "{generic,typed}x{sequential,with/without shx} and {generic,typed} random access (kind 5); non-trivial = "
-                       "distinct case whose implementation result is not an error" % nfiles)
+                       "distinct case whose implementation result is not an error; plus %d single-shape files with more than 1024 "
+                       "parts / rings / patches / points" % (nfiles, len(big)))
     P.run_ctor_stage(rep, dev, files, "c01")
     P.run_write_stage(rep, dev, files, "c01")
     P.run_read_stage(rep, dev, files, "c01")
+    # the large shapes: through the model as well in the thorough tier (the model reader is quadratic in the record
+    # size), implementation + round-trip oracle only in the quick tier
+    with_model = tier == "thorough"
+    P.run_ctor_stage(rep, dev, bigfiles, "c01big", model=with_model)
+    P.run_write_stage(rep, dev, bigfiles, "c01big", model=with_model)
+    P.run_read_stage(rep, dev, bigfiles, "c01big", routes=P.ROUTES if not with_model else P.ROUTES[:2], model=with_model)
+    files = files + bigfiles
     nfail = 0
     for f in files:
         rep.dist("files_type_%s" % shapes.TYPE_NAMES[f["code"]])
